@@ -140,9 +140,9 @@ func TestVerdicts(t *testing.T) {
 	}{
 		{"domain-only", `{"types":{},"primaryType":"EIP712Domain"}`, OK, false, ""},
 		{"absent struct refs", `{"types":{"A":[{"name":"a","type":"A"},{"name":"b","type":"A[]"},{"name":"c","type":"A[2]"}]},"primaryType":"A","message":{"a":null,"b":[],"c":[null,{"b":[null],"c":[null,null]}]}}`, OK, false, ""},
-		{"struct not object", `{"types":{"A":[{"name":"a","type":"A"}]},"primaryType":"A","message":{"a":"x"}}`, Invalid, true, "invalid:struct-not-object"},
-		{"array not array", `{"types":{"A":[{"name":"a","type":"uint8[]"}]},"primaryType":"A","message":{"a":{}}}`, Invalid, true, "invalid:array-not-array"},
-		{"fixed length", `{"types":{"A":[{"name":"a","type":"uint8[2]"}]},"primaryType":"A","message":{"a":[1]}}`, Invalid, true, "invalid:fixed-length"},
+		{"struct not object", `{"types":{"A":[{"name":"a","type":"A"}]},"primaryType":"A","message":{"a":"x"}}`, Invalid, false, "invalid:struct-not-object"},
+		{"array not array", `{"types":{"A":[{"name":"a","type":"uint8[]"}]},"primaryType":"A","message":{"a":{}}}`, Invalid, false, "invalid:array-not-array"},
+		{"fixed length", `{"types":{"A":[{"name":"a","type":"uint8[2]"}]},"primaryType":"A","message":{"a":[1]}}`, Invalid, false, "invalid:fixed-length"},
 		{"range", `{"types":{"A":[{"name":"a","type":"uint8"}]},"primaryType":"A","message":{"a":256}}`, Invalid, true, "invalid:int-range"},
 		{"range neg", `{"types":{"A":[{"name":"a","type":"int8"}]},"primaryType":"A","message":{"a":"-129"}}`, Invalid, true, "invalid:int-range"},
 		{"in range", `{"types":{"A":[{"name":"a","type":"int8"}]},"primaryType":"A","message":{"a":"-128"}}`, OK, false, ""},
